@@ -50,7 +50,7 @@ def run(name, gen, cmd, trace, tier, seed, ctxs=CTXS, maxnodes=None, extra_cfg=N
                     if s is not None:
                         stats["samples"].append(s)
         r = tlc(wd, trace, trace + ".cfg", env=dict({"TRACE": obs}, **(trace_env or {})), workers=trace_workers, heap="12g", timeout=3300)
-        stats.setdefault("tagged", {})[ctx] = {t: r.tagged(t) for t in ("RUNS",)}
+        stats.setdefault("tagged", {})[ctx] = {t: r.tagged(t) for t in ("RUNS", "ADV")}
         done = r.tagged("TRACE_DONE")
         if not r.ok or not done or done[0][1] != nev or done[0][2] < nev + 1:
             log(r.out[-4000:])
